@@ -431,11 +431,47 @@ func ruleVValidated(c *engine.Context) *report.Rule {
 				conds := dominatingConds(b)
 				validated := map[ssa.Value]bool{}
 				validatedBy := map[ssa.Value]*ssa.Call{}
+				// truth values of boolean SSA values known here: from the conditions themselves, and
+				// through (in)equalities between two booleans (`leftFound != rightFound` being false
+				// and `leftFound` being true make `rightFound` true)
+				truth := map[ssa.Value]bool{}
+				type rel struct {
+					a, b ssa.Value
+					same bool
+				}
+				var rels []rel
 				for _, dc := range conds {
-					if !dc.taken {
+					inner, neg := unwrapNot(dc.cond)
+					truth[inner] = dc.taken != neg
+					if bo, isBo := inner.(*ssa.BinOp); isBo && (bo.Op == token.EQL || bo.Op == token.NEQ) {
+						if bt, isB := bo.X.Type().Underlying().(*types.Basic); isB && bt.Info()&types.IsBoolean != 0 {
+							holds := dc.taken != neg
+							rels = append(rels, rel{bo.X, bo.Y, (bo.Op == token.EQL) == holds})
+						}
+					}
+				}
+				for changed := true; changed; {
+					changed = false
+					for _, rl := range rels {
+						if va, ok := truth[rl.a]; ok {
+							if _, has := truth[rl.b]; !has {
+								truth[rl.b] = va == rl.same
+								changed = true
+							}
+						}
+						if vb, ok := truth[rl.b]; ok {
+							if _, has := truth[rl.a]; !has {
+								truth[rl.a] = vb == rl.same
+								changed = true
+							}
+						}
+					}
+				}
+				for v, isTrue := range truth {
+					if !isTrue {
 						continue
 					}
-					if vc, ok := dc.cond.(*ssa.Call); ok && vc.Call.IsInvoke() && vc.Call.Method.Name() == p.Roles.ValidateMethod && sameFieldLoad(vc.Call.Value, call.Call.Value) {
+					if vc, ok := v.(*ssa.Call); ok && vc.Call.IsInvoke() && vc.Call.Method.Name() == p.Roles.ValidateMethod && sameFieldLoad(vc.Call.Value, call.Call.Value) && instrDominates(vc, call) {
 						validated[vc.Call.Args[0]] = true
 						validatedBy[vc.Call.Args[0]] = vc
 					}
